@@ -325,6 +325,77 @@ fn long_cases(tier: Tier) -> Vec<SimCase> {
     out
 }
 
+/// "A fatal socket error ends the run with that error and makes it visible in subsequent
+/// snapshots" also holds for errors met while the tracer sets itself up, before the first probe.
+/// This is the one place where the real `Tracer::run` (platform sockets) is called: a source
+/// address that is not local makes the validation bind fail without any packet leaving the host.
+#[derive(Clone, Debug, serde::Serialize, serde::Deserialize)]
+pub struct StartupCase {
+    pub v6: bool,
+    pub protocol: Proto,
+    pub privileged: bool,
+    pub spawned: bool,
+}
+
+fn startup_cases(_tier: Tier) -> Vec<StartupCase> {
+    let mut out = vec![];
+    for v6 in [false, true] {
+        for protocol in [Proto::Icmp, Proto::Udp, Proto::Tcp] {
+            for privileged in [true, false] {
+                for spawned in [false, true] {
+                    out.push(StartupCase { v6, protocol, privileged, spawned });
+                }
+            }
+        }
+    }
+    out
+}
+
+fn startup_test(c: &StartupCase, obs: &mut Obs) -> CheckResult {
+    use std::net::IpAddr;
+    // TEST-NET-3 / documentation prefix: never configured on an interface
+    let (target, source): (IpAddr, IpAddr) = if c.v6 { ("2001:db8::9".parse().unwrap(), "2001:db8::77".parse().unwrap()) } else { ("203.0.113.9".parse().unwrap(), "203.0.113.77".parse().unwrap()) };
+    let cfg = TraceCfg { v6: c.v6, protocol: c.protocol, privileged: c.privileged, ports: if c.protocol == Proto::Icmp { Ports::None } else { Ports::FixedDest(33434) }, ..TraceCfg::default() };
+    let built = trippy_core::Builder::new(target)
+        .source_addr(Some(source))
+        .protocol(cfg.protocol())
+        .port_direction(cfg.port_direction())
+        .privilege_mode(if c.privileged { trippy_core::PrivilegeMode::Privileged } else { trippy_core::PrivilegeMode::Unprivileged })
+        .max_rounds(Some(1))
+        .build();
+    let tracer = match built {
+        Ok(t) => t,
+        Err(_) => {
+            obs.excluded("startup: builder-rejected");
+            return Ok(());
+        }
+    };
+    let r = catch(|| {
+        if c.spawned {
+            match tracer.clone().spawn() {
+                Ok((_, handle)) => handle.join().unwrap_or_else(|_| Ok(())),
+                Err(e) => Err(e),
+            }
+        } else {
+            tracer.run()
+        }
+    })
+    .map_err(|p| Fail::new(panic_sig(&p), format!("Tracer::run panicked while setting up: {p}")))?;
+    match r {
+        Ok(()) => {
+            // the host lets processes bind addresses it does not own: nothing to observe
+            obs.excluded("startup: bind to a foreign address succeeded on this host");
+        }
+        Err(e) => {
+            let shown = tracer.snapshot().error().map(str::to_string);
+            vensure!(shown.as_deref() == Some(e.to_string().as_str()), "startup-error-not-in-snapshot", "the run ended with `{e}` before the first probe, snapshot().error() = {shown:?}");
+            obs.class("startup-error-recorded");
+            obs.nontrivial(&(c.v6, format!("{:?}", c.protocol), c.privileged, c.spawned));
+        }
+    }
+    Ok(())
+}
+
 pub fn check() -> PropertyCheck {
     PropertyCheck {
         id: "C09",
@@ -348,6 +419,12 @@ pub fn check() -> PropertyCheck {
                 exhaustive_note: Some("all single faults and (thorough: all; quick: every 7th) pairs at the listed positions for the small configuration of every supported cell"),
                 cases: small_cases,
                 test,
+            }),
+            Box::new(Enumerated {
+                name: "startup-error",
+                exhaustive_note: None,
+                cases: startup_cases,
+                test: startup_test,
             }),
             Box::new(Enumerated {
                 name: "round-count-long",
